@@ -88,7 +88,11 @@ class Block1Spool:
         if req.opt.block1.more:
             raise ContinueException(req.opt.block1)
         else:
-            return self._assemblies[block_key]
+            # The transfer is complete: the spool forgets it, so that a later
+            # block can not extend a request that was already handed out.
+            assembled = self._assemblies[block_key]
+            del self._assemblies[block_key]
+            return assembled
             # which happens to carry the last block's block1 option
 
 
